@@ -11,8 +11,8 @@ What is mirrored (crates/bytecode/src/compiler.rs, crates/runtime/src/vm.rs):
   first resumption, not the call), return values (`compile_return` and the implicit return in
   `compile_frame`, both skipped in generators), `yield` (`compile_yield`).
   All of these go through the single helper `assertHint`, the only place that looks at `checks`.
-* `compile_check_type` (always emitted) in `match` arms (`x: T` copies the value into `x` first, then
-  checks and jumps to the next arm on mismatch) and typed `catch` blocks (checks the caught value
+* `compile_check_type` (always emitted) in `match` arms (`x: T` checks the value in a temporary,
+  jumps to the next alternative/arm on mismatch and assigns `x` only on success) and typed `catch` blocks (checks the caught value
   first, binds only on success). Selection (`selectArm`, `selectCatch`) does not take `checks`.
 * `run_assert_type` raises `unexpected_type("T" or "T?", value)`; a caught runtime error arrives in
   the catch block as its message string.
@@ -245,17 +245,18 @@ def sized : V → Sized
   | .host _ _ _ _ => .other
   | _ => .nosize
 
-/- `match` patterns (check mode, no `checks` parameter): `x: T` copies the value into `x` first and
-then checks (`CheckType` jumps on mismatch), a hinted wildcard checks a temporary, a nested pattern
+/- `match` patterns (check mode, no `checks` parameter): `x: T` checks the value in a temporary and
+copies it into `x` only on success (`CheckType` jumps on mismatch; /repo b55f52b), a hinted wildcard
+checks a temporary too, a nested pattern
 needs a list/tuple of exactly that size and then matches element by element (bindings made before a
 later mismatch stay, as in the register machine) -/
 mutual
 def patM : Nat → P → V → St → PM × St
   | 0, _, _, s => (.stuck, s)
   | _ + 1, .b x h, v, s =>
-    ((match h with
-      | none => PM.yes
-      | some h => if check h.name h.opt v then PM.yes else PM.no), s.setOpt x v)
+    match h with
+    | none => (.yes, s.setOpt x v)
+    | some h => if check h.name h.opt v then (.yes, s.setOpt x v) else (.no, s)
   | _ + 1, .lit n, v, s => ((match v with | .int m => if m = n then PM.yes else PM.no | _ => PM.no), s)
   | k + 1, .tup ps, v, s =>
     match sized v with
